@@ -51,6 +51,10 @@ func (consumersSuite) Gen(r *rand.Rand, i int) Case {
 			if radv < 0 {
 				radv = 0
 			}
+			if r.Intn(30) == 0 {
+				radv = []int64{-3, -1000}[r.Intn(2)] // the substitute clock is set back while the function runs: a negative duration
+				c.Tags = append(c.Tags, "negative-duration")
+			}
 			ctx := pick(r, "bg", "bg", "bg", "cancelled")
 			fb := pick(r, "none", "nil", fmt.Sprintf("e%d", id))
 			id++
